@@ -1008,3 +1008,150 @@ Proof.
   split; [apply wf_stateb_sound; exact H|]. split; [apply meta_okb_sound; assumption|].
   split; apply textb_text; assumption.
 Qed.
+
+(* ------------------------------------------------------------------ histories: a loaded table is written again *)
+(* the state of a table that was loaded (table.py:4376-4381: the constructor receives what axis_load
+   returned) and is then held in ANY well-formed layout f0 / r that denotes the loaded matrix;
+   its group metadata are bare payload texts, which to_hdf5 writes with the empty data type *)
+Definition regmd (g : list (str * str)) : list (str * (str * str)) := map (fun kv => (fst kv, ([], snd kv))) g.
+Definition restate (ld : loaded) (f0 : fmt) (r : cs) : state :=
+  mkSt (l_oids ld) (l_sids ld) f0 r (l_omd ld) (l_smd ld) (l_type ld) (Some (l_id ld))
+       (regmd (l_ogmd ld)) (regmd (l_sgmd ld)).
+
+Lemma unpack_gmd_text g : unpack_gmd (map (fun kv => (fst kv, GText (snd kv))) g) = ROk (regmd g).
+Proof.
+  unfold unpack_gmd, regmd. rewrite mapM_map. apply mapM_ok. apply Forall_forall. intros kv _. reflexivity.
+Qed.
+
+Lemma subsetb_refl l : subsetb l l = true.
+Proof.
+  unfold subsetb. apply forallb_forall. intros x Hx. apply existsb_lz_In. exact Hx.
+Qed.
+
+Lemma mdkeys_mapped keys (g : str -> mdval) : mdkeys (map (fun k => (k, g k)) keys) = keys.
+Proof. unfold mdkeys. rewrite map_map. cbn [fst]. apply map_id. Qed.
+
+Lemma seq_nth_id (l : list mdval) : map (fun i => nth i l MNone) (seq 0 (length l)) = l.
+Proof. rewrite (map_nth_seq (fun x => x) l MNone). apply map_id. Qed.
+
+Lemma column_loaded_rows r0 rest k : In k (mdkeys r0) ->
+  column (loaded_rows (r0 :: rest)) k = column (r0 :: rest) k.
+Proof.
+  intros Hk. unfold loaded_rows, column at 1. rewrite map_map.
+  rewrite (map_ext _ (fun i => nth i (column (r0 :: rest) k) MNone)).
+  - rewrite <- (column_length (r0 :: rest) k). apply seq_nth_id.
+  - intros i. rewrite (mdget_map (mdkeys r0) (fun k0 => nth i (column (r0 :: rest) k0) MNone) k).
+    replace (existsb (lz_eqb k) (mdkeys r0)) with true by (symmetry; apply existsb_lz_In; exact Hk). reflexivity.
+Qed.
+
+Theorem md_loaded_homogeneous md n : md_homogeneous md n -> md_homogeneous (md_loaded md) n.
+Proof.
+  destruct md as [[|r0 rest]|]; try (intros; exact I).
+  intros (Hlen & Hne & Hnd & Hcat & Hrest & Hcol).
+  pose proof (column_loaded_rows r0 rest) as CL.
+  set (row := fun i => map (fun k => (k, nth i (column (r0 :: rest) k) MNone)) (mdkeys r0)).
+  assert (E : loaded_rows (r0 :: rest) = row 0 :: map row (seq 1 (length rest))) by reflexivity.
+  cbn [md_loaded md_homogeneous]. rewrite E.
+  split; [cbn [length]; rewrite map_length, seq_length; exact Hlen|].
+  split; [unfold row; destruct r0; [congruence|discriminate]|].
+  split; [unfold row; rewrite mdkeys_mapped; exact Hnd|].
+  split; [unfold row; rewrite mdkeys_mapped; exact Hcat|].
+  split.
+  - apply Forall_forall. intros r Hr. apply in_map_iff in Hr. destruct Hr as [i [<- _]].
+    unfold row. cbn beta. rewrite !mdkeys_mapped. split; [exact Hnd|]. unfold same_keys. rewrite !mdkeys_mapped, subsetb_refl. reflexivity.
+  - replace (mdkeys (row 0)) with (mdkeys r0) by (symmetry; apply mdkeys_mapped).
+    apply Forall_forall. intros k Hk. rewrite Forall_forall in Hcol. cbn beta.
+    rewrite <- E, (CL k Hk). apply Hcol. exact Hk.
+Qed.
+
+Lemma md_norm_loaded md n : md_homogeneous md n -> md_norm (md_loaded md) = md_loaded md.
+Proof.
+  destruct md as [[|r0 rest]|]; try reflexivity. intros (_ & Hne & _). cbn [md_loaded md_norm]. unfold loaded_rows.
+  cbn [length seq map]. rewrite nonempty_head; [reflexivity|]. destruct r0; [congruence|discriminate].
+Qed.
+
+Lemma opt_text_nonempty o : opt_text o s_no_table_id <> [].
+Proof. destruct o as [[|c s]|]; cbn [opt_text]; discriminate. Qed.
+
+Lemma regmd_ok g : gmd_ok g -> gmd_ok (regmd (map (fun e => (fst e, snd (snd e))) g)).
+Proof.
+  intros [Hn F]. unfold regmd. rewrite map_map. cbn [fst snd]. split; [rewrite map_map; cbn [fst]; exact Hn|].
+  apply Forall_forall. intros e He. apply in_map_iff in He. destruct He as [x [<- Hx]].
+  rewrite Forall_forall in F. destruct (F x Hx) as (A & B & _ & D). cbn [fst snd].
+  split; [exact A|]. split; [exact B|]. split; [constructor|exact D].
+Qed.
+
+(* [history] the table loaded from a written file, held in any well-formed layout that denotes the
+   loaded matrix, satisfies the hypotheses of the round trip again; writing it again and loading
+   yields generation 1 once more: ids, matrix, metadata (as dictionaries), type, id, generated-by,
+   date, group-metadata payloads *)
+Theorem second_generation st genby date f0 r ax :
+  wf_state st -> meta_ok st -> text genby -> text date ->
+  wf_cs r -> matrix_of f0 r = st_mat st ->
+  length (st_oids st) = (match f0 with CSR => major r | CSC => minor r end) ->
+  length (st_sids st) = (match f0 with CSR => minor r | CSC => major r end) ->
+  let ld1 := reloaded st genby date in
+  let st2 := restate ld1 f0 r in
+  wf_state st2 /\ meta_ok st2
+  /\ to_hdf5_raw st2 (map (fun kv => (fst kv, GText (snd kv))) (l_ogmd ld1))
+                     (map (fun kv => (fst kv, GText (snd kv))) (l_sgmd ld1)) genby date
+     = to_hdf5 st2 genby date
+  /\ exists f ld2,
+       to_hdf5 st2 genby date = ROk f /\ from_hdf5 f ax = ROk ld2
+       /\ l_oids ld2 = l_oids ld1 /\ l_sids ld2 = l_sids ld1 /\ l_mat ld2 = l_mat ld1
+       /\ md_agree (l_omd ld2) (l_omd ld1) /\ md_agree (l_smd ld2) (l_smd ld1)
+       /\ l_type ld2 = l_type ld1 /\ l_id ld2 = l_id ld1
+       /\ l_genby ld2 = l_genby ld1 /\ l_date ld2 = l_date ld1
+       /\ l_ogmd ld2 = l_ogmd ld1 /\ l_sgmd ld2 = l_sgmd ld1.
+Proof.
+  intros Wf M Tg Td Wr Hm Ho Hs ld1 st2.
+  pose proof Wf as (W & Lo & Ls & No & Ns & To & Ts). pose proof M as (M1 & M2 & G1 & G2 & Oty & Oid).
+  assert (Wf2 : wf_state st2).
+  { unfold wf_state, st2, restate, ld1, reloaded, st_nobs, st_nsamp. cbn [st_cs st_oids st_sids st_fmt l_oids l_sids].
+    repeat (split; [assumption|]). assumption. }
+  assert (M2' : meta_ok st2).
+  { unfold meta_ok, st2, restate, ld1, reloaded.
+    cbn [st_omd st_smd st_oids st_sids st_ogmd st_sgmd st_type st_id l_oids l_sids l_omd l_smd l_type l_id l_ogmd l_sgmd].
+    split; [apply md_loaded_homogeneous; exact M1|]. split; [apply md_loaded_homogeneous; exact M2|].
+    split; [apply regmd_ok; exact G1|]. split; [apply regmd_ok; exact G2|]. split; [exact Oty|].
+    cbn [id_ok]. apply text_id_text; [exact Oid|exact text_placeholder]. }
+  split; [exact Wf2|]. split; [exact M2'|]. split.
+  { unfold to_hdf5_raw. rewrite !unpack_gmd_text. cbn [bind]. f_equal. }
+  destruct (hdf5_roundtrip st2 genby date ax Wf2 M2' Tg Td)
+    as (f & ld2 & E1 & E2 & A1 & A2 & A3 & A4 & A5 & A6 & A7 & A8 & A9 & A10 & A11).
+  exists f, ld2. split; [exact E1|]. split; [exact E2|].
+  unfold st2, restate, ld1, reloaded in *.
+  cbn [st_oids st_sids st_omd st_smd st_type st_id st_ogmd st_sgmd l_oids l_sids l_mat l_omd l_smd l_type l_id l_genby l_date l_ogmd l_sgmd] in *.
+  split; [exact A1|]. split; [exact A2|].
+  split; [rewrite A3; unfold st_mat; cbn [st_fmt st_cs]; exact Hm|].
+  split; [rewrite (md_norm_loaded _ _ M1) in A4; exact A4|]. split; [rewrite (md_norm_loaded _ _ M2) in A5; exact A5|].
+  split; [exact A6|]. split.
+  { rewrite A7. cbn [opt_text]. destruct (opt_text (st_id st) s_no_table_id) eqn:E; [|reflexivity].
+    exfalso. exact (opt_text_nonempty _ E). }
+  split; [exact A8|]. split; [exact A9|]. split.
+  - rewrite A10. unfold regmd. rewrite map_map. cbn [fst snd]. rewrite map_map. cbn [fst snd]. apply map_ext. intros [k [dt v]]. reflexivity.
+  - rewrite A11. unfold regmd. rewrite map_map. cbn [fst snd]. rewrite map_map. cbn [fst snd]. apply map_ext. intros [k [dt v]]. reflexivity.
+Qed.
+
+(* [history] ... and the file written from the loaded table conforms and decodes to the original matrix *)
+Theorem second_generation_conforms st genby date f0 r :
+  wf_state st -> meta_ok st -> type_in_vocab st -> text genby -> text date ->
+  wf_cs r -> matrix_of f0 r = st_mat st ->
+  length (st_oids st) = (match f0 with CSR => major r | CSC => minor r end) ->
+  length (st_sids st) = (match f0 with CSR => minor r | CSC => major r end) ->
+  exists f,
+    to_hdf5 (restate (reloaded st genby date) f0 r) genby date = ROk f /\ conforms f
+    /\ get_attr (attrs f) b_format_version = Some (AInts [2%Z; 1%Z])
+    /\ get_attr (attrs f) b_nnz = Some (AInt (Z.of_nat (count_nonzero (st_mat st))))
+    /\ spec_decode_csr f = Some (st_mat st) /\ spec_decode_csc f = Some (st_mat st).
+Proof.
+  intros Wf M Tv Tg Td Wr Hm Ho Hs.
+  destruct (second_generation st genby date f0 r Samp Wf M Tg Td Wr Hm Ho Hs) as (Wf2 & M2 & _).
+  set (st2 := restate (reloaded st genby date) f0 r) in *.
+  assert (Tv2 : type_in_vocab st2) by exact Tv.
+  assert (Hm2 : st_mat st2 = st_mat st) by exact Hm.
+  destruct (hdf5_conforms st2 genby date Wf2 M2 Tv2) as (f & E & C & _ & _ & _ & N & D1 & D2 & _).
+  exists f. split; [exact E|]. split; [exact C|]. split.
+  - destruct C as (n & m & nnz & _ & _ & _ & V & _). exact V.
+  - rewrite Hm2 in N, D1, D2. split; [exact N|]. split; [exact D1|exact D2].
+Qed.
